@@ -142,6 +142,9 @@ class Interp:
             return [ins[0] - ins[1]]
         if op == "Mul":
             return [ins[0] * ins[1]]
+        if op == "Div":
+            with np.errstate(all="ignore"):
+                return [ins[0] / ins[1]]
         if op == "Neg":
             return [-ins[0]]
         if op == "Abs":
@@ -227,4 +230,6 @@ def same(a, b):
             return False
         if not np.array_equal(x, y, equal_nan=True):
             return False
+        if x.dtype.kind == "f" and not np.array_equal(np.signbit(x) & (x == 0), np.signbit(y) & (y == 0)):
+            return False  # +0.0 and -0.0 are different results (1/x tells them apart)
     return True
